@@ -210,7 +210,11 @@ where
             });
         };
 
-        assert!(rem.ends_with(')'));
+        if !rem.ends_with(')') {
+            return Err(format!(
+                "invalid type clause '{s}': argument list is not closed by ')'"
+            ));
+        }
         let rem = rem.trim_end_matches(')');
         let args = rem
             .split(", ")
